@@ -898,6 +898,23 @@ def provided(r, sels, info, force=False, std=True):
             i = b.op(f"writefmt 0 {hexbytes(s)}")
             b.expect(i, "ok", "write_fmt failed")
             acc += s
+        # argument kinds beyond `&str`: chars (ASCII, Latin-1, BMP, astral), non-ASCII fill, integers, padded char
+        for _ in range(r.randrange(1, 4)):
+            alphabet = "ab09 ~\u0080\u00e9\u00df\u00b7\u00ff\u0100\u03a9\u20ac\U0001f600"
+            t = "".join(r.choice(alphabet) for _ in range(r.randrange(0, 7)))
+            mode = r.randrange(4)
+            if mode == 0:
+                exp = t
+            elif mode == 1:
+                exp = "\u00e9" * max(0, 8 - len(t)) + t
+            elif mode == 2:
+                exp = t + "\u00b7" * max(0, 5 - len(t)) + "|" + str(len(t)) + "|" + "   \u00df"
+            else:
+                exp = t if t else "\u00ff"
+            b.tags.append(f"fmtmode={mode}")
+            i = b.op(f"writefmtx 0 {mode} {hexbytes(t.encode())} {hexbytes(exp.encode())}")
+            b.expect(i, "ok", "write_fmt failed")
+            acc += exp.encode()
     f = b.op("finish 0")
     j = b.op(f"{hs} {sel} 64 {kstr(key)} {hexbytes(acc)}")
     b.eq(f, j, "finish() is not the hash of the bytes written through the provided io::Write method")
